@@ -13,7 +13,7 @@ import (
 func init() {
 	Drivers["C12"] = driveC12
 	Levels["C12"] = "exploration"
-	Rules["C12"] = "one run = one array (length 0-8, a quarter of them 9-24, elements of every JSON type in mixed Go representations: float64/int/int8/uint/float32/json.Number spellings, inside []any and map[string]any containers built in different insertion orders) with or without a planted duplicate at a chosen pair of positions that is equal but not identical, checked against {uniqueItems:true}; or one enum / const schema against an instance; each validated under 8 (quick) / 24 (thorough) configurations of hash seed x collision mask {64,2,1,0 bits} x map order. Oracles: the verdict equals the pairwise definition computed with the public Equal, identically in every configuration; and, through the generated hashValue helper, Equal(x,y) implies equal digests under the same seed with independent map orders for x and y. Non-trivial = a planted duplicate whose members differ in Go representation in an array of length >=3, or a masked configuration in which >=2 unequal items shared a bucket. Distinct = hash(values with their Go types, schema kind) x (seed, mask, order) vector."
+	Rules["C12"] = "one run = one array (length 0-8, a quarter of them 9-24, elements of every JSON type in mixed Go representations: float64/int/int8/uint/float32/json.Number spellings, inside []any and map[string]any containers built in different insertion orders) with or without a planted duplicate at a chosen pair of positions that is equal but not identical, checked against {uniqueItems:true}; or one enum / const schema against an instance; or (one run in six) 2-4 arrays that share elements, checked inside ONE Validate call below anyOf / not / if-then / contains (which swallow a failed uniqueItems), against the definition applied array by array; each validated under 8 (quick) / 24 (thorough) configurations of hash seed x collision mask {64,2,1,0 bits} x map order. Oracles: the verdict equals the pairwise definition computed with the public Equal, identically in every configuration; and, through the generated hashValue helper, Equal(x,y) implies equal digests under the same seed with independent map orders for x and y. Non-trivial = a planted duplicate whose members differ in Go representation in an array of length >=3, or a masked configuration in which >=2 unequal items shared a bucket. Distinct = hash(values with their Go types, schema kind) x (seed, mask, order) vector."
 	Assumptions["C12"] = append([]string{
 		"Equal is used as the definition of JSON equality, as the property's text does (that Equal itself is right is C11, not claimed); values behind pointers and typed containers ([]int, map[string]int) are not generated: Equal(&x, x) and Equal([]int{1}, []any{1.0}) are false (Equal does not look through an interface on one side only), which is a C11/C08 matter outside this check",
 		"with -tags purego hash/maphash is a pure function of the seed value, so a seed is a replayable decision; masking Sum64 to 2, 1 or 0 bits forces the collision path, which has probability 2^-64 per pair otherwise",
@@ -91,7 +91,117 @@ func typedJSON(v any) string {
 	return fmt.Sprintf("%T:%s", v, JSON(v))
 }
 
+// driveC12Multi: several arrays are checked against uniqueItems inside ONE Validate call, below
+// applicators that swallow a failure (anyOf, not, if, contains), so that whatever the check keeps
+// between arrays (tables, seeds) meets a second array after a failed first one.
+func driveC12Multi(c *Ctx) {
+	n := 2 + c.W(3)
+	pool := make([]any, 3+c.W(3))
+	for i := range pool {
+		pool[i] = GenValue(c, 1)
+	}
+	arrays := make([]any, n)
+	uniq := make([]bool, n)
+	lens := make([]int, n)
+	var typed []string
+	for i := range arrays {
+		m := c.W(5)
+		a := make([]any, m)
+		for j := range a {
+			a[j] = clone(pool[c.W(len(pool))]) // arrays share elements with each other
+			if c.W(3) == 0 {
+				a[j] = rerepr(c, a[j], 1)
+			}
+		}
+		arrays[i] = a
+		lens[i] = m
+		uniq[i] = true
+		for x := 0; x < m; x++ {
+			for y := x + 1; y < m; y++ {
+				if jsonschema.Equal(a[x], a[y]) {
+					uniq[i] = false
+				}
+			}
+		}
+		typed = append(typed, typedJSON(a))
+	}
+	k := 1 + c.W(3)
+	u := map[string]any{"uniqueItems": true}
+	var doc map[string]any
+	want := true
+	variant := c.W(4)
+	switch variant {
+	case 0:
+		doc = map[string]any{"items": map[string]any{"anyOf": []any{u, map[string]any{"maxItems": k}}}}
+		for i := range arrays {
+			want = want && (uniq[i] || lens[i] <= k)
+		}
+	case 1:
+		doc = map[string]any{"items": map[string]any{"not": u}}
+		for i := range arrays {
+			want = want && !uniq[i]
+		}
+	case 2:
+		doc = map[string]any{"items": map[string]any{"if": u, "then": map[string]any{"minItems": k}}}
+		for i := range arrays {
+			want = want && (!uniq[i] || lens[i] >= k)
+		}
+	case 3:
+		doc = map[string]any{"contains": u}
+		want = false
+		for i := range arrays {
+			want = want || uniq[i]
+		}
+	}
+	text := JSON(doc)
+	c.In("multi-array %s over %q", text, typed)
+	c.Distinct("multi|%s|%q", text, typed)
+	var schema jsonschema.Schema
+	if err := json.Unmarshal([]byte(text), &schema); err != nil {
+		c.Fail("C12/definition", "unmarshal", "generated schema does not unmarshal: %v", err)
+		return
+	}
+	var res *jsonschema.Resolved
+	var rerr error
+	r := Op(func() { res, rerr = schema.Resolve(nil) })
+	c.CheckOp("Resolve", r)
+	if r.Panicked || rerr != nil {
+		c.Fail("C12/definition", "resolve", "Resolve failed: %v %v", r, rerr)
+		return
+	}
+	for ci, mask := range []int{64, 2, 1, 0, 64, 1} {
+		simrt.SetHashMask(mask)
+		simrt.SetOrderPolicy(ci % simrt.NumOrderPolicies)
+		var verr error
+		r := Op(func() { verr = res.Validate(arrays) })
+		c.CheckOp("Validate", r)
+		if r.Panicked {
+			c.Fail("C12/definition", "validate-"+r.String(), "Validate of several arrays in one call did not return normally: %s (schema %s, arrays %q)", r.Value, text, typed)
+			break
+		}
+		if (verr == nil) != want {
+			c.Fail("C12/definition", "uniqueItems-several-arrays", "configuration %d (mask %d bits): schema %s over arrays %q: valid=%v, the pairwise Equal definition applied array by array says %v (unique: %v, lengths %v); error: %v",
+				ci, mask, text, typed, verr == nil, want, uniq, lens, verr)
+			if ci > 0 {
+				c.Fail("C14/hash-seed-independence", "uniqueItems-several-arrays", "configuration %d differs from the definition only under this seed/collision pattern", ci)
+			}
+			break
+		}
+	}
+	simrt.SetHashMask(64)
+	simrt.SetOrderPolicy(simrt.OrderSorted)
+	c.Nontrivial = n >= 2
+	c.Probe("kind:uniqueItems-several-arrays-in-one-call")
+	if c.logOn {
+		c.Sample = map[string]any{"kind": "several arrays in one call", "schema": json.RawMessage(text), "arrays": typed, "definition_valid": want}
+	}
+}
+
 func driveC12(c *Ctx) {
+	if c.W(6) == 0 {
+		driveC12Multi(c)
+		return
+	}
 	mode := c.W(4) // 0,1 uniqueItems; 2 enum; 3 const
 	var schema *jsonschema.Schema
 	var inst any
